@@ -468,6 +468,8 @@ type vsLineage struct {
 	failMarkAt int
 	hw         uint64 // highest index this lineage has handled (or loaded)
 	skew       bool   // a compaction-shaped snapshot was installed (see sameAs)
+	raceArmed  bool   // a racing manual compaction is planned for this job
+	raced      *vsRaced
 
 	lastRes     map[uint64]fsm.ApplyResult
 	completed   map[uint64]int
@@ -559,7 +561,41 @@ func (l *vsLineage) Restore(ctx context.Context, st state.ClusterState) error {
 
 // MarkAppliedBatch is the raft-store side applied marker; it is also the
 // observation point for intermediate states.
+// vsRaced is a raft snapshot as Service.compactLogAt builds it when a manual
+// compaction (run-loop goroutine, reads the store's applied marker) runs while
+// the apply scheduler has already saved and published a batch whose applied
+// marker has not moved yet.
+type vsRaced struct {
+	data       []byte
+	metaIndex  uint64 // the lagging applied marker = snapshot metadata index
+	stateIndex uint64 // AppliedRaftIndex of the embedded state (ahead of metaIndex)
+}
+
+// captureRace runs at the one point where the real scheduler has published a
+// batch and not yet marked it applied.
+func (l *vsLineage) captureRace(ctx context.Context) {
+	st := l.sm.Snapshot(ctx)
+	applied := l.applied
+	if st.Revision == 0 || applied == 0 || st.AppliedRaftIndex <= applied {
+		return // compactLogAt would skip, or nothing is ahead
+	}
+	if st.AppliedRaftIndex < applied { // as compactLogAt: only ever raised
+		st.AppliedRaftIndex = applied
+	}
+	data, err := state.Encode(st)
+	if err != nil {
+		l.r.FailSig("published_invalid", l.name, fmt.Sprintf("%s: published state cannot be encoded for a snapshot: %v", l.name, err), nil)
+		return
+	}
+	l.raced = &vsRaced{data: data, metaIndex: applied, stateIndex: st.AppliedRaftIndex}
+	l.r.Fault("compaction_race")
+	l.r.Logf("%s compaction races the scheduler: marker %d, published state applied %d", l.name, applied, st.AppliedRaftIndex)
+}
+
 func (l *vsLineage) MarkAppliedBatch(ctx context.Context, index uint64) error {
+	if l.raceArmed && l.raced == nil {
+		l.captureRace(ctx)
+	}
 	l.marks++
 	if l.failMarkAt != 0 && l.marks == l.failMarkAt {
 		l.r.Fault("mark_error")
@@ -703,9 +739,14 @@ func (l *vsLineage) run() {
 		// fault plan for this job
 		plan := 0
 		if l.faults && l.restarts < maxRestarts {
-			plan = t.Weighted([]int{6, 2, 2, 2, 3, 2})
+			plan = t.Weighted([]int{6, 2, 2, 2, 3, 2, 3})
 		}
 		switch plan {
+		case 6:
+			// a manual log compaction races with the apply scheduler of this
+			// replica: it runs after a batch was saved and published and before
+			// the applied marker moved (see MarkAppliedBatch / captureRace)
+			l.raceArmed = true
 		case 2:
 			l.failMarkAt = l.marks + 1 + t.Intn(3)
 		case 3:
@@ -727,15 +768,20 @@ func (l *vsLineage) run() {
 		if err == nil {
 			next = end + 1
 		}
-		if !crashed && plan != 1 && plan != 5 {
-			l.failMarkAt, l.killSave = 0, 0
+		if !crashed && plan != 1 && plan != 5 && l.raced == nil {
+			l.failMarkAt, l.killSave, l.raceArmed = 0, 0, false
 			if l.fs != nil {
 				l.fs.failSaveAt = 0
 			}
 			continue
 		}
-		if !crashed && next > n {
+		if !crashed && next > n && l.raced == nil {
 			break // a restart after the last entry is covered by the final reload below
+		}
+		raced := l.raced
+		l.raced, l.raceArmed = nil, false
+		if crashed {
+			raced = nil
 		}
 		// ---- restart ---------------------------------------------------------------
 		l.restarts++
@@ -749,10 +795,39 @@ func (l *vsLineage) run() {
 			r.Fault("kill_in_save")
 		case err != nil:
 			kind = "error"
-		case plan == 5:
+		case plan == 5 || raced != nil:
 			kind = "snapshot_install"
 		default:
 			r.Fault("restart")
+		}
+		if raced != nil {
+			// a follower with an empty disk installs the snapshot the racing compaction
+			// produced: metadata index = the lagging applied marker, embedded state
+			// already ahead of it. The entries in between arrive again afterwards and
+			// must be recognised as already applied.
+			r.Fault("snapshot_install_state_ahead")
+			ndir := filepath.Join(l.w.base, fmt.Sprintf("%s%d", l.name, l.gen))
+			if err := os.MkdirAll(ndir, 0o755); err != nil {
+				r.Infra("mkdir: %v", err)
+				return
+			}
+			if !l.open(ndir) {
+				return
+			}
+			l.applied, l.hw = 0, raced.stateIndex
+			l.newScheduler()
+			r.Logf("%s restart#%d snapshot_install of raced compaction: metadata index %d, embedded state applied %d", l.name, l.restarts, raced.metaIndex, raced.stateIndex)
+			if err := l.sched.applyJob(ctx, toApply{snapshot: raftpb.Snapshot{Data: raced.data, Metadata: raftpb.SnapshotMetadata{Index: raced.metaIndex, Term: 1}}}); err != nil {
+				r.FailSig("apply_error", l.name, fmt.Sprintf("%s: snapshot install failed: %v", l.name, err), nil)
+				return
+			}
+			if r.Failed() {
+				return
+			}
+			back := uint64(t.Intn(vsMin(int(raced.metaIndex), 3) + 1))
+			next = raced.metaIndex + 1 - back
+			r.Logf("%s redeliver from %d (metadata %d, state %d)", l.name, next, raced.metaIndex, raced.stateIndex)
+			continue
 		}
 		if kind == "snapshot_install" {
 			// a follower that lost its disk: empty directory, snapshot of a prefix, then the tail
